@@ -324,11 +324,24 @@ def _seeds(acc, job):
         if not np.array_equal(a, b):
             bad.append(f"EG regression seed {seed}")
         y, g = [1, 0, 1, 0, 1, 0], [0, 0, 0, 1, 1, 1]
-        to, _ = tc.fit_concrete(("demographic_parity", "accuracy_score", False), y, g, 4, [0.1, 0.7, 0.4, 0.9, 0.3, 0.6])
         sf = [tc.GROUPS[v] for v in g]
-        a, b = to.predict(X, sensitive_features=sf, random_state=seed), to.predict(X, sensitive_features=sf, random_state=seed)
-        if not np.array_equal(a, b):
-            bad.append(f"ThresholdOptimizer seed {seed}")
+        # a fitted rule that really randomises (fractional probabilities on several rows); the process-wide numpy generator is put into a
+        # different state before every call, so that draws taken from it instead of the seeded generator cannot agree by accident
+        to = None
+        for scores, gs in (([0.1, 0.7, 0.4, 0.9, 0.3, 0.6], 4), ([0.2, 0.8, 0.5, 0.3, 0.9, 0.6], 10), ([0.6, 0.1, 0.8, 0.7, 0.2, 0.4], 10), ([0.3, 0.2, 0.9, 0.8, 0.1, 0.5], 7)):
+            cand, pm = tc.fit_concrete(("demographic_parity", "accuracy_score", False), y, g, gs, scores)
+            if sum(1 for v in pm[:, 1] if 0.05 < v < 0.95) >= 3:
+                to = cand
+                break
+        if to is None:
+            bad.append("harness: no randomising ThresholdOptimizer rule among the candidates")
+            continue
+        outs_to = []
+        for rep in range(4):
+            np.random.seed(1000 + rep)
+            outs_to.append(np.asarray(to.predict(X, sensitive_features=sf, random_state=seed)))
+        if not all(np.array_equal(outs_to[0], o) for o in outs_to[1:]):
+            bad.append(f"ThresholdOptimizer seed {seed}: repeated predict with the same random_state gives {[o.tolist() for o in outs_to]}")
     acc.r["obligations"] += 1
     acc.r["paths"] += 1
     acc.r["paths_with_obligations"] += 1
